@@ -181,6 +181,14 @@ def build_pair(pool='x'):
     return [bins[u[0]] for u in units]
 
 
+def build_rpc():
+    header = os.path.join(HARNESS, 'pools', 'pool_r.h')
+    units = [('rpc', ['-DPOOL_HEADER="pools/pool_r.h"', '-DPOOL_NS=pool_r', '-DNSHARD=1', '-DSHARD=0'])]
+    bins = build_binaries('rpc', [os.path.join(HARNESS, 'rpc_main.cpp')], units,
+                          extra_inputs=[header, os.path.join(HARNESS, 'codec_main.cpp')])
+    return bins['rpc']
+
+
 def build_util():
     units = [('util', [])]
     flags = SAN_FLAGS + ['-fno-sanitize=shift-base']
